@@ -77,6 +77,18 @@ def litmus_shapes():
         add(f"SB[{w1},{r1};{w2},{r2}]", [[st("x", 1, w1), ld("y", r1)], [st("y", 1, w2), ld("x", r2)]])
     for f1, f2 in itertools.product(["acqrel", "sc"], repeat=2):
         add(f"SB+fences[{f1},{f2}]", [[st("x", 1), fence(f1), ld("y")], [st("y", 1), fence(f2), ld("x")]])
+    # ... with a bystander's SeqCst fence that may fall between the two that matter: the SC order is total and cumulative over
+    # ALL fences of the execution, not only over neighbours
+    sb1, sb2 = [st("x", 1), fence("sc"), ld("y")], [st("y", 1), fence("sc"), ld("x")]
+    for nm, by in [("fence", [fence("sc")]), ("2fences", [fence("sc"), fence("sc")]), ("fence-after-load", [ld("z"), fence("sc")]),
+                   ("store-fence", [st("z", 1), fence("sc")])]:
+        add(f"SB+scfences+bystander-{nm}[first]", [by, sb1, sb2])
+        add(f"SB+scfences+bystander-{nm}[mid]", [sb1, by, sb2])
+        add(f"SB+scfences+bystander-{nm}[last]", [sb1, sb2, by])
+    out.append({"threads": [[spawn(2), spawn(3), fence("sc"), join(2), join(3)], sb1, sb2], "name": "SB+scfences+bystander-main", "tags": ["litmus"]})
+    out.append({"threads": [[spawn(2), spawn(3), ld("z"), fence("sc"), join(2), join(3)], sb1, sb2], "name": "SB+scfences+bystander-main-late", "tags": ["litmus"]})
+    out.append({"threads": [[spawn(2), spawn(3), spawn(4), ld("z"), fence("sc"), join(2), join(3), join(4)], sb1, [fence("sc")], sb2],
+                "name": "SB+scfences+2bystanders", "tags": ["litmus"]})
     # load buffering (the po u rf cycle is excluded by the machine itself)
     for r, w in [("rlx", "rlx"), ("acq", "rel")]:
         add(f"LB[{r},{w}]", [[ld("x", r), st("y", 1, w)], [ld("y", r), st("x", 1, w)]])
@@ -580,6 +592,21 @@ def with_builder(p):
     return q
 
 
+def with_cell_api(p, wk="cell"):
+    """the same program with its plain UnsafeCell accesses made through loom::cell::Cell (get / set | replace | take)"""
+    import copy
+    q = copy.deepcopy(p)
+    for th in q["threads"]:
+        for i in th:
+            if i["op"] == "rd" and i["k"] == "":
+                i["k"] = "cell"
+            elif i["op"] == "wr" and i["k"] == "":
+                i["k"] = wk
+                i["v"] = 1
+    q["name"] = (q.get("name") or "") + "+Cell." + wk
+    return q
+
+
 def waived(p):
     """Parts of the comparison that are NOT applied to program p because an open finding
     (known_findings.json / DESIGN.md §8) would fire.  Returns {want-name: finding id}."""
@@ -634,6 +661,24 @@ def race_idioms():
     for f1, f2 in [("rel", "acq"), ("acqrel", "acqrel"), ("sc", "sc"), ("acq", "rel"), ("rel", "rel")]:
         A(P(f"flag+fences[{f1},{f2}]", sj(2) + jj(2), [wr("c"), fence(f1), st("x", 1)],
             [ld("x"), br(1, 1, 2), fence(f2), rd("c")]))
+    # a release OPERATION covers that operation only: a later relaxed store of the same thread (to another atomic) publishes nothing
+    rdr = [ld("y", "acq"), br(1, 1, 1), rd("c")]
+    A(P("relstore-then-rlx-store-racy", sj(2) + jj(2), [wr("c"), st("x", 1, "rel"), st("y", 1)], rdr))
+    A(P("scstore-then-rlx-store-racy", sj(2) + jj(2), [wr("c"), st("x", 1, "sc"), st("y", 1)], rdr))
+    A(P("relrmw-then-rlx-store-racy", sj(2) + jj(2), [wr("c"), fadd("x", 1, "rel"), st("y", 1)], rdr))
+    A(P("unlock-then-rlx-store-racy", sj(2) + jj(2), [wr("c")] + CS("m") + [st("y", 1)], rdr))
+    A(P("unlockw-then-rlx-store-racy", sj(2) + jj(2), [wr("c"), L("write", "l"), L("unlockw", "l"), st("y", 1)], rdr))
+    A(P("send-then-rlx-store-racy", [spawn(2), spawn(3), L("recv", "ch"), join(2), join(3), L("droprx", "ch")], [wr("c"), L("send", "ch", v=1), st("y", 1)], rdr))
+    A(P("notify-then-rlx-store-racy", [spawn(2), spawn(3), L("nwait", "nt"), join(2), join(3)], [wr("c"), L("notify", "nt"), st("y", 1)], rdr))
+    A(P("unpark-then-rlx-store-racy", [spawn(2), spawn(3), L("park"), join(2), join(3)], [wr("c"), unpark(1), st("y", 1)], rdr))
+    A(P("relstore-then-rlx-rmw-racy", sj(2) + jj(2), [wr("c"), st("x", 1, "rel"), fadd("y", 1)], rdr))
+    # ... and a release FENCE covers the later stores of its own thread, not those of a thread spawned after it
+    for f in ["rel", "acqrel", "sc"]:
+        A(P(f"spawn-after-fence-racy[{f}]", [spawn(2), wr("c"), fence(f), spawn(3), join(2), join(3)], rdr, [st("y", 1)]))
+    A(P("spawn-after-fence-child-fences-ok", [spawn(2), wr("c"), fence("rel"), spawn(3), join(2), join(3)], rdr, [fence("rel"), st("y", 1)]))
+    A(P("spawn-after-relstore-racy", [spawn(2), wr("c"), st("x", 1, "rel"), spawn(3), join(2), join(3)], rdr, [st("y", 1)]))
+    A(P("spawn-after-fence-grandchild-racy", [spawn(2), wr("c"), fence("rel"), spawn(3), join(2), join(3)], rdr, [spawn(4), join(4)], [st("y", 1)]))
+    A(P("relfence-then-rlx-store-ok", sj(2) + jj(2), [wr("c"), fence("rel"), st("x", 1), st("y", 1)], rdr))
     A(P("flag-await-acq", sj(2) + jj(2), [wr("c"), st("x", 1, "rel")], [await_("x", "acq"), rd("c")]))
     A(P("flag-await-rlx", sj(2) + jj(2), [wr("c"), st("x", 1, "rel")], [await_("x", "rlx"), rd("c")]))
     # RMW chains / release sequences
@@ -704,6 +749,12 @@ def race_idioms():
     A(P("uld-racy", [spawn(2), L("uld", "x"), join(2)], [st("x", 1)]))
     A(P("uld-ld-ok", [spawn(2), L("uld", "x"), join(2)], [ld("x")]))
     A(P("withmut-synced-ok", [spawn(2), L("wmut", "x", v=5), st("y", 1, "rel"), join(2)], [await_("y", "acq"), ld("x")]))
+    # the same accesses made through loom::cell::Cell (get = read access; set / replace / take = write access)
+    plain = [q for q in out if any(i["op"] in ("rd", "wr") for th in q["threads"] for i in th)
+             and not any(i["op"] in ("rdhold", "wrhold", "wrrd", "rdwr") or (i["op"] in ("rd", "wr") and i["k"]) for th in q["threads"] for i in th)]
+    for n, q in enumerate(plain):
+        if n % 3 == 0:
+            A(with_cell_api(q, ["cell", "replace", "take"][(n // 3) % 3]))
     return out
 
 
@@ -772,6 +823,16 @@ def blocking_shapes():
         [L("read", "l"), L("send", "c1", v=1), join(3), L("unlockr", "l")], [L("read", "l"), L("unlockr", "l")]))
     A(P("reader-joins-tryreader", [spawn(3), spawn(2), L("recv", "c1"), join(2), L("droprx", "c1")],
         [L("read", "l"), L("send", "c1", v=1), join(3), L("unlockr", "l")], [L("tryread", "l"), br(1, 1, 1), L("unlockr", "l")]))
+    # ... also when both readers were blocked behind a writer: its release lets ALL pending readers in, not only the first
+    A(P("readers-behind-writer-wait-for-each-other", [L("write", "l"), spawn(2), spawn(3), ld("x"), L("unlockw", "l"), join(2), join(3)],
+        [L("read", "l"), L("recv", "c2"), L("unlockr", "l"), L("droprx", "c2")], [L("read", "l"), L("send", "c2", v=1), L("unlockr", "l")]))
+    A(P("readers-behind-writer-wait-for-each-other-mirrored", [L("write", "l"), spawn(2), spawn(3), ld("x"), L("unlockw", "l"), join(2), join(3)],
+        [L("read", "l"), L("send", "c2", v=1), L("unlockr", "l")], [L("read", "l"), L("recv", "c2"), L("unlockr", "l"), L("droprx", "c2")]))
+    A(P("readers-behind-writer-thread-join-each-other", [spawn(4), spawn(3), spawn(2), join(2), join(4)],
+        [L("read", "l"), ld("x"), join(3), L("unlockr", "l")], [L("read", "l"), ld("x"), L("unlockr", "l")], [L("write", "l"), ld("x"), ld("x"), L("unlockw", "l")]))
+    A(P("readers-behind-last-reader-of-writer-queue", [L("read", "l"), spawn(2), spawn(3), spawn(4), ld("x"), L("unlockr", "l"), join(2), join(3), join(4)],
+        [L("write", "l"), ld("x"), L("unlockw", "l")], [L("read", "l"), L("recv", "c2"), L("unlockr", "l"), L("droprx", "c2")],
+        [L("read", "l"), L("send", "c2", v=1), L("unlockr", "l")]))
     # two threads really waiting on one condvar (a counter under the mutex tells), two notify_one: both are released
     WT = [L("lock", "m"), fadd("n", 1, "rel"), L("cvwait", "cv", o2="m"), L("unlock", "m")]
     A(P("cv-two-waiters-two-notify-one", [spawn(2), spawn(3), await_("n", "acq", v=2), L("lock", "m"), L("unlock", "m"), L("notify1", "cv"), L("notify1", "cv"), join(2), join(3)],
@@ -851,7 +912,7 @@ def lock_shapes():
     out = [P("two-pending-readers-overlap", [L("write", "l"), spawn(2), spawn(3), fadd("c", 0, "sc"), L("unlockw", "l"), join(2), join(3)],
              [fadd("c", 1, "sc"), L("read", "l"), st("x", 1, "sc"), ld("y", "sc"), L("unlockr", "l")],
              [fadd("c", 1, "sc"), L("read", "l"), st("y", 1, "sc"), ld("x", "sc"), L("unlockr", "l")])]
-    out += [p for p in blocking_shapes() if p["name"] in ("reader-waits-for-reader", "reader-joins-reader", "reader-joins-tryreader",
+    out += [p for p in blocking_shapes() if p["name"].startswith("readers-behind-") or p["name"] in ("reader-waits-for-reader", "reader-joins-reader", "reader-joins-tryreader",
                                                           "rw-readers-only-ok", "rw-read-write-inversion")]
     A = out.append
     # a refused try_* must leave the lock as it is: every later attempt while the holder is still inside is refused too
@@ -978,6 +1039,20 @@ def wait_shapes():
     A(P("cv-notify1-twice", [spawn(2), spawn(3), spawn(4), join(2), join(3), join(4)], CS("m", L("cvwait", "cv", o2="m")),
         CS("m", L("cvwait", "cv", o2="m")), CS("m", L("notify1", "cv"), L("notify1", "cv"))))
     A(P("unpark-twice-coalesce", [spawn(2), unpark(2), unpark(2), join(2)], [L("park"), ld("x")]))
+    # a thread that REALLY blocked in park (no token) and was woken is not parked any more: an unpark that arrives before
+    # its next park leaves a token.  The second unpark is issued only after the first park has returned (await), so the
+    # two unparks cannot coalesce and no execution deadlocks.
+    A(P("park-woken-then-token", [spawn(2), I("yield"), unpark(2), await_("y", "acq"), unpark(2), join(2)],
+        [L("park"), st("y", 1, "rel"), I("yield"), L("park")]))
+    A(P("park-woken-then-token-store-race", [spawn(2), st("x", 1), unpark(2), await_("y", "acq"), unpark(2), join(2)],
+        [st("x", 2), L("park"), st("y", 1, "rel"), ld("x"), L("park")]))
+    A(P("park-woken-then-token-3", [spawn(2), spawn(3), I("yield"), unpark(2), join(2), join(3)],
+        [L("park"), st("y", 1, "rel"), I("yield"), L("park"), ld("z")], [await_("y", "acq"), st("z", 1), unpark(2)]))
+    # ... and an unpark of a thread that was woken from a real park and now blocks elsewhere must not release it
+    A(P("park-woken-then-lock-unpark", [spawn(2), L("lock", "m"), I("yield"), unpark(2), I("yield"), unpark(2), I("yield"), ld("x"), L("unlock", "m"), join(2)],
+        [L("park")] + CS("m", st("x", 1))))
+    A(P("park-woken-then-cvwait-unpark", [spawn(2), I("yield"), unpark(2), I("yield"), unpark(2), I("yield")] + CS("m", st("x", 1), L("notify1", "cv")) + [join(2)],
+        [L("park")] + CS("m", ld("x"), br(1, 0, 1), L("cvwait", "cv", o2="m"), ld("x"))))
     return out
 
 
@@ -1030,6 +1105,12 @@ def chan_shapes():
     # --- shapes of the open findings F9 / F11
     A(P("F9-tryrecv-vs-send", [spawn(2), L("tryrecv", "ch"), join(2), L("droprx", "ch")], [L("send", "ch", v=5)]))
     A(P("F9-tryrecv-twice", [spawn(2), L("tryrecv", "ch"), L("tryrecv", "ch"), join(2), L("droprx", "ch")], [L("send", "ch", v=5), L("send", "ch", v=6)]))
+    # ... in every spawn order: the thread that polls may have been created after the sender, or be a child of it
+    A(P("msg-left-if-late-child-polls", [spawn(2), L("send", "ch", v=1), join(2)], [L("tryrecv", "ch")]))
+    A(P("msg-left-if-late-sender-spawned-first", SJ(2) + JJ(2), [L("send", "ch", v=1)], [L("tryrecv", "ch")]))
+    A(P("msg-left-if-late-poller-spawned-first", SJ(2) + JJ(2), [L("tryrecv", "ch")], [L("send", "ch", v=1)]))
+    A(P("track-left-if-poll-early", [L("tnew", "k")] + SJ(2) + JJ(2) + [L("droprx", "ch")], [L("send", "ch", v=1)], [L("tryrecv", "ch"), br(1, 0, 1), L("tdrop", "k")]))
+    A(P("msg-left-if-second-poll-early", SJ(2) + JJ(2), [L("send", "ch", v=1), L("send", "ch", v=2)], [L("tryrecv", "ch"), L("tryrecv", "ch")]))
     A(P("F11-send-after-droprx", [L("droprx", "ch"), L("send", "ch", v=1)]))
     A(P("F11-send-races-droprx", [spawn(2), L("droprx", "ch"), join(2)], [L("send", "ch", v=1)]))
     return out
@@ -1134,6 +1215,12 @@ def leak_shapes():
     A(P("msg-drained-by-drop", [spawn(2), join(2), L("droprx", "ch")], [L("send", "ch", v=1), L("send", "ch", v=2)]))
     A(P("msg-received", [spawn(2), L("recv", "ch"), join(2)], [L("send", "ch", v=1)]))
     A(P("msg-left-if-late", [spawn(2), L("tryrecv", "ch"), join(2)], [L("send", "ch", v=1)]))
+    # ... in every spawn order: the thread that polls may have been created after the sender, or be a child of it
+    A(P("msg-left-if-late-child-polls", [spawn(2), L("send", "ch", v=1), join(2)], [L("tryrecv", "ch")]))
+    A(P("msg-left-if-late-sender-spawned-first", SJ(2) + JJ(2), [L("send", "ch", v=1)], [L("tryrecv", "ch")]))
+    A(P("msg-left-if-late-poller-spawned-first", SJ(2) + JJ(2), [L("tryrecv", "ch")], [L("send", "ch", v=1)]))
+    A(P("track-left-if-poll-early", [L("tnew", "k")] + SJ(2) + JJ(2) + [L("droprx", "ch")], [L("send", "ch", v=1)], [L("tryrecv", "ch"), br(1, 0, 1), L("tdrop", "k")]))
+    A(P("msg-left-if-second-poll-early", SJ(2) + JJ(2), [L("send", "ch", v=1), L("send", "ch", v=2)], [L("tryrecv", "ch"), L("tryrecv", "ch")]))
     A(P("F11-send-after-droprx", [L("droprx", "ch"), L("send", "ch", v=1)]))
     # leaks that depend on a uniqueness check racing with the drop of the other handle
     A(P("leak-if-unwrap-wins", [L("tnew", "k"), spawn(2), L("aunwrap", "a1"), br(1, 0, 2), L("tdrop", "k"), D("a1"), join(2)], [D("a2")], arcs=a2))
@@ -1418,6 +1505,16 @@ def panic_base():
     A(P("pb-deadlock-main-holding-read-guard", [spawn(2)] + RD("l", join(2)), [L("recv", "ch")]))
     A(P("pb-deadlock-parked-holding-write-guard", [spawn(2), join(2)], WR("l", L("park"))))
     A(P("pb-deadlock-nwait-holding-read-guard", [spawn(2), join(2)], RD("l", L("nwait", "nt"))))
+    # ... or any value whose destructor uses a loom object: an atomic (AGuard loads it in Drop), a Receiver with a message pending
+    G = lambda o="x": I("aguard", o, k="always")
+    A(P("pb-deadlock-atomic-in-drop-main", [G(), I("park")]))
+    A(P("pb-deadlock-atomic-in-drop-thread", [spawn(2), join(2)], [G(), ld("y"), I("park")]))
+    A(P("pb-deadlock-atomic-in-drop-both", [G("y"), spawn(2), ld("x"), join(2)], [G(), ld("y"), L("recv", "ch")]))
+    A(P("pb-deadlock-atomic-in-drop-lock-inversion", SJ(2) + JJ(2), [G()] + CS("m", ld("y"), *CS("n")), [G("y")] + CS("n", ld("y"), *CS("m"))))
+    A(P("pb-deadlock-atomic-in-drop-cv", SJ(2) + JJ(2), [G()] + CS("m", L("cvwait", "cv", o2="m")), [G("y"), ld("x")] + CS("m", st("x", 1))))
+    A(P("pb-deadlock-rx-pending-in-frame", [L("send", "ch", v=1), L("rxhold", "ch"), I("park"), L("rxrel", "ch"), L("droprx", "ch")]))
+    A(P("pb-deadlock-rx-pending-in-thread-frame", [spawn(2), L("send", "ch", v=1), join(2), L("droprx", "ch")], [L("rxhold", "ch"), ld("x"), I("park"), L("rxrel", "ch")]))
+    A(P("pb-panic-atomic-in-drop", SJ(2) + JJ(2), [G(), ld("y"), st("x", 1)], [G("y"), ld("x"), st("y", 1)]))
     # the panic is raised INSIDE the closure of with / with_mut, and a destructor of the unwinding frame touches the same atomic
     A(P("pb-panic-in-wmut", [spawn(2), join(2), I("wmut", "x", v=3, k="panic")], [ld("y")]))
     A(P("pb-panic-in-wmut-guard", [I("aguard", "x"), spawn(2), join(2), I("wmut", "x", v=3, k="panic")], [ld("y")]))
